@@ -46,6 +46,10 @@ class T:
     def fresh(self, ctx, name):
         raise NotImplementedError
 
+    def restrict(self, ctx, value):
+        """narrow a fresh value to a small sub-space (refutation search only; never used for proofs)"""
+        return None
+
     def from_prefix(self, ctx, rid, k):
         raise NotImplementedError
 
@@ -104,6 +108,10 @@ class _Bytes(T):
             ctx.assume(s.len <= self.max)
         return SBytes(seq=s)
 
+    def restrict(self, ctx, value):
+        if isinstance(value, SBytes) and value.items is None:
+            ctx.assume(int_term_(value.length()) <= 2)
+
     def from_prefix(self, ctx, rid, k):
         f = z3.Function('elem_%s' % rid, z3.IntSort(), IntSeq)
         fl = z3.Function('elemlen_%s' % rid, z3.IntSort(), z3.IntSort())
@@ -112,6 +120,7 @@ class _Bytes(T):
         if ctx is not None:
             ctx.fact(n >= 0)
             ctx.couple(t, n)
+            ctx.len_terms[n.get_id()] = n
         return SBytes(seq=SeqPart(t, n))
 
 
@@ -137,7 +146,13 @@ class ListOf(T):
     def fresh(self, ctx, name):
         n = ctx.fresh_int('len_' + name)
         ctx.fact(n >= 0)
+        ctx.len_terms[n.get_id()] = n
         return SList(name, n, [], self.elem, self.cls, 0)
+
+    def restrict(self, ctx, value):
+        ctx.assume(value.n <= 8)
+        for k in range(1, 9):
+            self.elem.restrict(ctx, self.elem.from_prefix(ctx, value.rid, value.taken + k))
 
 
 class FixedList(T):
@@ -178,6 +193,10 @@ class OpaqueT(T):
         return Opaque(name, self.pytype)
 
 
+def int_term_(v):
+    return ops.int_term(v)
+
+
 Int = _Int()
 Bool = _Bool()
 Bytes = _Bytes()
@@ -202,12 +221,14 @@ class Contract:
         self.pins = {k: _fn(v) for k, v in d.get('pins', {}).items()}
         self.call = _fn(d.get('call'))               # params -> dict of keyword arguments of the target
         self.build = _fn(d.get('build'))
-        self.sample = _fn(d.get('sample'))           # native: rng -> dict of concrete params (optional)             # native: concrete params -> (callable, args, kwargs)
+        self.sample = _fn(d.get('sample'))
+        self.prepare = _fn(d.get('prepare'))         # native: concrete params -> dict of params replaced by real objects           # native: rng -> dict of concrete params (optional)             # native: concrete params -> (callable, args, kwargs)
         self.observe = _fn(d.get('observe'))         # native: extracts comparable state after call
         self.modifies = d.get('modifies', ())
         self.returns = d.get('returns')              # T for the result when applied at call sites
         self.assumed = d.get('assumed', False)       # contract is not verified (external / out of reach)
         self.bounds = d.get('bounds', {})
+        self.bounded = d.get('bounded')              # text: the contract only covers a stated bounded shape (stand-in, not a proof)
         self.doc = (spec_cls.__doc__ or '').strip()
         self.ghost = d.get('ghost', {})
         self.trusted_note = d.get('trusted_note')
@@ -262,3 +283,19 @@ def implies(a, b):
 def spec(fn):
     """marks a pure specification function (interpreted symbolically, executable natively)"""
     return fn
+
+
+OPAQUE = {}
+
+
+def opaque(result='int', outlen=None, facts=None, max_len=9):
+    """Marks a specification function as *abstract at call sites with symbolic-length arguments*: the call becomes an
+    application of an uninterpreted function of the same name, plus the stated `facts(args..., r)` (a list of Boolean
+    expressions).  With concrete-length arguments the body is interpreted as usual.  The facts are themselves proof
+    obligations (lemma contract `<module>.<name>#facts`, verified on every byte-string length up to `max_len`, beyond
+    which every fact must be vacuous)."""
+    def deco(fn):
+        fn._pyvc_opaque = {'result': result, 'outlen': outlen, 'facts': facts, 'max_len': max_len}
+        OPAQUE['%s.%s' % (fn.__module__, fn.__qualname__)] = fn
+        return fn
+    return deco
